@@ -7,9 +7,12 @@ import (
 	"crypto/tls"
 	"crypto/x509"
 	"flag"
+	"fmt"
 	"math/rand"
 	"net"
+	"os"
 	"runtime"
+	"strconv"
 	"strings"
 	"sync"
 	"sync/atomic"
@@ -205,10 +208,76 @@ func (r *run) afterStop() {
 		relisten = true
 		ln.Close()
 	}
+	if !relisten {
+		// the bind failed: only a socket of THIS process still bound to the port counts (another
+		// process on the machine may have been given the freed ephemeral port in the meantime)
+		relisten = !ownSocketOnPort(r.proto == "udp", r.addr)
+	}
 	r.quiesce()
 	r.w.Emit(vt.Ev{"e": "AfterStop", "leaked": leaked, "relisten": relisten})
 	close(r.stopCons)
 	<-r.consDone
+}
+
+// watchdog: a scenario that does not finish (collector deadlocked, Stop never returns) becomes a Hang
+// event and ends the run; the goroutines it blocks cannot be recovered.
+var wd *time.Timer
+
+// ownSocketOnPort reports whether this process holds a socket bound to the local port of addr
+// (a listening one for TCP), going by /proc/net/{tcp,udp} and the socket inodes of /proc/self/fd.
+func ownSocketOnPort(udp bool, addr string) bool {
+	_, ps, err := net.SplitHostPort(addr)
+	if err != nil {
+		return true
+	}
+	port, _ := strconv.Atoi(ps)
+	own := map[string]bool{}
+	fds, _ := os.ReadDir("/proc/self/fd")
+	for _, fd := range fds {
+		if l, err := os.Readlink("/proc/self/fd/" + fd.Name()); err == nil && strings.HasPrefix(l, "socket:[") {
+			own[strings.TrimSuffix(strings.TrimPrefix(l, "socket:["), "]")] = true
+		}
+	}
+	files := []string{"/proc/net/tcp", "/proc/net/tcp6"}
+	if udp {
+		files = []string{"/proc/net/udp", "/proc/net/udp6"}
+	}
+	for _, f := range files {
+		b, err := os.ReadFile(f)
+		if err != nil {
+			continue
+		}
+		for _, line := range strings.Split(string(b), "\n")[1:] {
+			fs := strings.Fields(line)
+			if len(fs) < 10 {
+				continue
+			}
+			i := strings.LastIndex(fs[1], ":")
+			p, err := strconv.ParseInt(fs[1][i+1:], 16, 32)
+			if err != nil || int(p) != port {
+				continue
+			}
+			if !udp && fs[3] != "0A" { // TCP: listening sockets only
+				continue
+			}
+			if own[fs[9]] {
+				return true
+			}
+		}
+	}
+	return false
+}
+
+func arm(w *vt.Writer, what string) {
+	if wd != nil {
+		wd.Stop()
+	}
+	wd = time.AfterFunc(45*time.Second, func() {
+		w.Emit(vt.Ev{"e": "Hang", "what": what})
+		w.Close()
+		vt.PrintSummary(vt.Summary{Events: w.Events(), Traces: w.Traces(), Evaluations: w.Events(), Distinct: 2})
+		os.Exit(0)
+	})
 }
 
 func main() {
@@ -232,6 +301,7 @@ func main() {
 			for _, n := range sizes {
 				runtime.GOMAXPROCS([]int{2, 16}[r.Intn(2)])
 				// (A) all clients run to completion, then Stop
+				arm(w, fmt.Sprintf("scenario A %s n=%d", proto, n))
 				ru := start(w, proto, n)
 				var wg sync.WaitGroup
 				for c := 1; c <= n; c++ {
@@ -263,6 +333,7 @@ func main() {
 				ru.afterStop()
 				scen++
 				// (B) Stop during traffic, clients connected and mid-message
+				arm(w, fmt.Sprintf("scenario B %s n=%d", proto, n))
 				ru = start(w, proto, n+1)
 				until := make(chan struct{})
 				for c := 1; c <= n; c++ {
@@ -283,10 +354,18 @@ func main() {
 						c.Write(b[:len(b)/2])
 					}
 				}
+				// over TLS also a peer that is connected but never starts its handshake
+				var stalled net.Conn
+				if proto == "tls" {
+					stalled, _ = net.Dial("tcp", ru.addr)
+				}
 				time.Sleep(time.Duration(5+r.Intn(40)) * time.Millisecond)
 				ru.stop()
 				if midConn != nil {
 					midConn.Close()
+				}
+				if stalled != nil {
+					stalled.Close()
 				}
 				close(until)
 				wg.Wait()
@@ -305,6 +384,7 @@ func main() {
 	for _, proto := range []string{"tcp", "tls"} {
 		for k := 0; k < nD; k++ {
 			n := 2 + r.Intn(6)
+			arm(w, "scenario D "+proto)
 			ru := start(w, proto, n)
 			until := make(chan struct{})
 			var wg sync.WaitGroup
@@ -351,12 +431,14 @@ func main() {
 	}
 	for _, proto := range []string{"tcp", "udp"} {
 		for k := 0; k < nC; k++ {
+			arm(w, "scenario C "+proto)
 			ru := start(w, proto, 1)
 			ru.stop()
 			ru.afterStop()
 			scen++
 		}
 	}
+	wd.Stop()
 	w.Close()
 	vt.PrintSummary(vt.Summary{Events: w.Events(), Traces: w.Traces(), Evaluations: evals + scen, Distinct: scen})
 }
